@@ -165,6 +165,11 @@ def value_tree(v, model, prog=None):
     if isinstance(v, Tup):
         return ('node', '', [value_tree(x, model, prog) for x in v.f])
     if isinstance(v, Enum):
+        if v.variant is None and v.ty == 'Option':
+            d = ev_int(model, v.discr, True)
+            if d == 1 and v.f:
+                return ('node', 'Some', [value_tree(v.f[0], model, prog)])
+            return ('node', 'None', [])
         if v.variant is None:
             d = ev_int(model, v.discr, True)
             name = None
